@@ -21,7 +21,7 @@ def mutant(patch, demo, checks, tests=True, tier="quick"):
 if sys.argv[1] == "import":
     out, pid = Path(sys.argv[2]), sys.argv[3]
     extra = sys.argv[4:]
-    for letter in "AB":
+    for letter in sorted({f.stem[-1] for f in out.glob("patch?.diff")}):
         p, d, m = out / f"patch{letter}.diff", out / f"demo{letter}.py", out / f"meta{letter}.json"
         if not p.exists():
             print(pid, letter, "missing patch"); continue
